@@ -342,6 +342,16 @@ def build_library(atoms, scope, funcs):
         # the C API alone: Fortran (and with it Python / Lua) switched off
         lib["declarations"] = decls
         lib["options"].update({"wrap_fortran": False, "wrap_python": False, "wrap_lua": False})
+    elif scope == "cfistr":
+        # Fortran-2018 descriptors: every overload returns a std::string that the Fortran API hands back through an
+        # argument (F_string_result_as_arg), so each callable signature also has a *_CFI C entry point
+        import copy as _copy
+        sdecls = _copy.deepcopy(decls)
+        for nd in sdecls:
+            nd["decl"] = re.sub(r"^void ", "const std::string ", nd["decl"])
+            nd.setdefault("format", {})["F_string_result_as_arg"] = "output"
+        lib["declarations"] = sdecls
+        lib["options"].update({"F_CFI": True, "wrap_python": False, "wrap_lua": False})
     elif scope == "ns":
         lib["declarations"] = [{"decl": "namespace %s" % atoms["ns"], "declarations": decls}]
     elif scope == "deep":
@@ -562,10 +572,11 @@ def check_structure(scope, funcs):
         want_f1 = want_f
         if scope == "flat":
             want_c, want_f = 2 * want_c, 2 * want_f
-        mine_c = [n for n in names["c"] if fname in n.lower() and "bufferify" not in n]
+        mine_c = [n for n in names["c"] if fname in n.lower() and "bufferify" not in n and (scope != "cfistr" or n.endswith("_CFI"))]
+        # (scope cfistr: a std::string returned by value has no plain C entry point, its *_CFI function is the one counted)
         if len(mine_c) != want_c:
             return "C++ name %s has %d callable signatures but %d C entry points %r" % (atoms["f%d" % idx], want_c, len(mine_c), mine_c[:8]), None
-        pred = predicted_names(scope, atoms, idx, spec) if scope != "flat" else None
+        pred = predicted_names(scope, atoms, idx, spec) if scope not in ("flat", "cfistr") else None
         if pred is not None and not (t and d and k == 1):
             if set(mine_c) != pred[0]:
                 return "C++ name %s: the user-given suffixes predict the C names %r, emitted %r" % (
@@ -711,6 +722,9 @@ def structures(tier):
     for s in single:
         if s[4] is False and not (s[2] and s[1] and s[0] == 1):
             out.append(("flat", [s]))
+    for s in single:
+        if not s[2] and not s[3] and (s[0] > 1 or s[1]) and s[4] in (False, True):
+            out.append(("cfistr", [s]))
     for scope in ("lib", "ns", "cls", "deep", "tcls", "tclsr", "conly"):
         for s in single:
             if scope in ("cls", "deep", "tcls", "tclsr", "conly") and s[3]:
